@@ -512,6 +512,19 @@ func (w *World) c20Loop() {
 			inFlight := st.inFlight
 			st.mu.Unlock()
 			if liveRunners == 0 && inFlight == 0 && len(w.c20Verdicts) > 0 {
+				if len(w.plan.C15Submit) > 0 && !w.c15Submitted && st.gen > 0 && len(st.runErrs) == 0 {
+					// a configuration without any task: the dashboard
+					// submission is all that is left to happen
+					w.c15Submitted = true
+					st.mu.Lock()
+					st.inFlight++
+					st.restarts++
+					st.mu.Unlock()
+					w.logf("dashboard submission (C15, nothing running)")
+					go w.c15Dashboard()
+					w.step--
+					continue
+				}
 				return // startup error or everything done
 			}
 			idle++
